@@ -4,7 +4,9 @@ import CallbagModel.Inv.ConcatFull
 import CallbagModel.Inv.FlattenFull
 import CallbagModel.Inv.ForEachFull
 import CallbagModel.Inv.FromIterFull
+import CallbagModel.Inv.MergeFull
 import CallbagModel.Inv.RelayFull
+import CallbagModel.Inv.ShareFull
 import CallbagModel.Inv.TakeFull
 /-!
 # C05 — errors are not lost: property theorems (statements only; the invariants are in `Inv/*Full.lean`)
@@ -52,6 +54,15 @@ theorem C05_flatten {α : Type} :
     ∀ s, SReach (Flatten.machine α) s → SafeFor 5 s :=
   fun s hs => (FlattenFull.flatten_safe s hs).safeFor 5
 
+theorem C05_merge {α : Type} (n : Nat) :
+    ∀ s, SReach (Merge.machine α n) s → SafeFor 5 s :=
+  fun s hs => (MergeFull.merge_safe n s hs).safeFor 5
+
+/-- `share`: proved for environments in which the source does not deliver from inside one of share's own deliveries
+(`noNestedFanout`, the restriction C12 makes in its own quantifier). -/
+theorem C05_share_partial {α : Type} :
+    ∀ s, SReachR (Share.machine α) noNestedFanout s → SafeFor 5 s :=
+  fun s hs => (ShareFull.share_safe_partial s hs).safeFor 5
 /- `combine!`: C05 is FALSE for this operator (known finding KF1: an upstream `Error` is counted as a completion; the sink never
 receives it). There is no history class on which the property says anything and holds, hence no `_partial` theorem; the witness is
 `C05_combine_counterexample` in `Thm/Counterexamples.lean`. -/
